@@ -90,9 +90,9 @@ theorem node?_file {fs : FS} (hp : TreeOK [] fs) {k : Bytes} {d : Bytes} (h : fs
   | none => simp [hg] at h
   | some i =>
     simp only [hg, Option.some.injEq, inoNode] at h
-    rcases hp.kinds k i hg with ⟨hk, _⟩ | ⟨_, hnl, _, hdata⟩
+    rcases hp.kinds k i hg with ⟨hk, _⟩ | ⟨_, _, hdata⟩
     · simp [hk] at h
-    · cases hkk : (fs.ino i).kind <;> simp [hkk] at h hnl
+    · cases hkk : (fs.ino i).kind <;> simp [hkk] at h
       obtain ⟨d', hd'⟩ := hdata hkk
       simp [hd'] at h
       subst h
@@ -100,6 +100,16 @@ theorem node?_file {fs : FS} (hp : TreeOK [] fs) {k : Bytes} {d : Bytes} (h : fs
 
 theorem node?_sym {fs : FS} {k tgt : Bytes} (h : fs.node? k = some (.sym tgt)) :
     ∃ i, fs.get? k = some i ∧ (fs.ino i).kind = .sym ∧ (fs.ino i).link = tgt := by
+  unfold FS.node? at h
+  cases hg : fs.get? k with
+  | none => simp [hg] at h
+  | some i =>
+    simp only [hg, Option.some.injEq, inoNode] at h
+    cases hkk : (fs.ino i).kind <;> simp [hkk] at h
+    exact ⟨i, rfl, hkk, h⟩
+
+theorem node?_hard {fs : FS} {k tgt : Bytes} (h : fs.node? k = some (.hard tgt)) :
+    ∃ i, fs.get? k = some i ∧ (fs.ino i).kind = .link ∧ (fs.ino i).link = tgt := by
   unfold FS.node? at h
   cases hg : fs.get? k with
   | none => simp [hg] at h
@@ -119,6 +129,28 @@ theorem node?_special {fs : FS} {k : Bytes} (h : fs.node? k = some .special) :
     exact ⟨i, rfl, hkk⟩
 
 theorem addFuel_eq : addFuel = 4094 + 2 := rfl
+
+/-- `mkdir -p` makes directories only: a regular file of the result was there before. -/
+theorem xMkdirs_file_back : ∀ (ds : List Bytes) (t t1 : XTree), xMkdirs t ds = some t1 →
+    ∀ k d, alGet t1 k = some (.file d) → alGet t k = some (.file d) ∨ alGet t k = some (.file d) := by
+  intro ds
+  induction ds with
+  | nil => intro t t1 h k d hk; simp [xMkdirs] at h; subst h; exact Or.inl hk
+  | cons d0 ds ih =>
+    intro t t1 h k d hk
+    simp only [xMkdirs] at h
+    split at h
+    · rcases ih _ _ h k d hk with h' | h'
+      · rw [alGet_alSet] at h'
+        split at h'
+        · cases h'
+        · exact Or.inl h'
+      · rw [alGet_alSet] at h'
+        split at h'
+        · cases h'
+        · exact Or.inl h'
+    · exact ih _ _ h k d hk
+    · cases h
 
 /-- One member with a defined extraction: `addMembers` goes on from a
     tree-consistent view that presents the reference with the member inserted. -/
@@ -159,7 +191,7 @@ theorem member_step (m : Member) (ms : List Member) (fs : FS) (t t2 : XTree)
         subst hins
         obtain ⟨fs', hadd, hT, hR⟩ := add_member_fresh 4094 (fs := fs) (t := t) (t1 := tA)
           (ino := { kind := .dir, name := joinSlash (init ++ [c]), link := m.link, children := some [], data := some [] })
-          [] true h hrep hg hu hfresh (Or.inl ⟨rfl, rfl⟩) (by simp) hA
+          [] true h hrep hg hu hfresh (Or.inl ⟨rfl, rfl⟩) (by simp) (by simp) hA
         refine ⟨fs', ?_, hT, hR⟩
         have hprep : prepMember fs m = some { kind := .dir, name := joinSlash (init ++ [c]), link := m.link, children := some [], data := some [] } := by
           simp [prepMember, hk, hnn, hfresh]
@@ -191,7 +223,7 @@ theorem member_step (m : Member) (ms : List Member) (fs : FS) (t t2 : XTree)
           have hfresh := node?_none hnode
           obtain ⟨fs', hadd, hT, hR⟩ := add_member_fresh 4094 (fs := fs) (t := t) (t1 := tA)
             (ino := { kind := .reg, name := joinSlash (init ++ [c]), link := m.link, children := none, data := some m.data })
-            [] true h hrep hg hu hfresh (Or.inr ⟨by simp, by simp, rfl, fun _ => ⟨m.data, rfl⟩⟩) (by simp) hA
+            [] true h hrep hg hu hfresh (Or.inr ⟨by simp, rfl, fun _ => ⟨m.data, rfl⟩⟩) (by simp) (by simp) hA
           refine ⟨fs', ?_, hT, hR⟩
           rw [addMembers, hprep]
           simp only
@@ -202,6 +234,7 @@ theorem member_step (m : Member) (ms : List Member) (fs : FS) (t t2 : XTree)
           cases node with
           | dir => simp at hins
           | sym x => simp at hins
+          | hard x => simp at hins
           | special => simp at hins
           | file d =>
             simp only [Option.some.injEq] at hins
@@ -242,7 +275,7 @@ theorem member_step (m : Member) (ms : List Member) (fs : FS) (t t2 : XTree)
           · exact contained_normPath _
         obtain ⟨fs', hadd, hT, hR⟩ := add_member_fresh 4094 (fs := fs) (t := t) (t1 := tA)
           (ino := { kind := .sym, name := joinSlash (init ++ [c]), link := normLink .sym (joinSlash (init ++ [c])) m.link, children := none, data := some [] })
-          [] true h hrep hg hu hfresh (Or.inr ⟨by simp, by simp, rfl, by simp⟩) (fun _ => hlc) hA
+          [] true h hrep hg hu hfresh (Or.inr ⟨by simp, rfl, by simp⟩) (fun _ => hlc) (by simp) hA
         refine ⟨fs', ?_, hT, hR⟩
         have hprep : prepMember fs m = some { kind := .sym, name := joinSlash (init ++ [c]), link := normLink .sym (joinSlash (init ++ [c])) m.link, children := none, data := some [] } := by
           simp [prepMember, hk, hnn]
@@ -250,7 +283,58 @@ theorem member_step (m : Member) (ms : List Member) (fs : FS) (t t2 : XTree)
         simp only
         rw [addFuel_eq, hadd]
         simp [alDel]
-  | link => simp [hk] at hins
+  | link =>
+    simp only [hk] at hins
+    cases hget : alGet t n with
+    | some node => simp [hget] at hins
+    | none =>
+      simp only [hget] at hins
+      rw [hget] at hnode
+      have hfresh := node?_none hnode
+      have hnd : n ≠ dotP := by
+        intro e; rw [e, h.root] at hfresh; cases hfresh
+      obtain ⟨init, c, hg, hu, rfl⟩ := contained_comps hn hnd
+      rw [prefixesOf_dropLast hg] at hins
+      cases hA : xMkdirs t (prefixesAux [] true init) with
+      | none => simp [hA] at hins
+      | some tA =>
+        simp only [hA] at hins
+        have hlc : Contained (normLink .link (joinSlash (init ++ [c])) m.link) := by
+          simp only [normLink]
+          split
+          · exact contained_normPath _
+          · exact contained_normPath _
+        cases htgt : alGet tA (normLink .link (joinSlash (init ++ [c])) m.link) with
+        | none => simp [htgt] at hins
+        | some node =>
+          cases node with
+          | file d =>
+            simp only [htgt, Option.some.injEq] at hins
+            subst hins
+            -- the target is a regular file of the view already
+            have htgt0 : alGet t (normLink .link (joinSlash (init ++ [c])) m.link) = some (.file d) := by
+              rcases xMkdirs_file_back _ _ _ hA _ d htgt with h' | h'
+              · exact h'
+              · exact h'
+            have hkey : (fs.get? (normLink .link (joinSlash (init ++ [c])) m.link)).isSome = true := by
+              have := hrep (normLink .link (joinSlash (init ++ [c])) m.link) (by simp)
+              rw [htgt0] at this
+              obtain ⟨i, hi⟩ := node?_some this
+              simp [hi]
+            obtain ⟨fs', hadd, hT, hR⟩ := add_member_fresh 4094 (fs := fs) (t := t) (t1 := tA)
+              (ino := { kind := .link, name := joinSlash (init ++ [c]), link := normLink .link (joinSlash (init ++ [c])) m.link, children := none, data := some [] })
+              [] true h hrep hg hu hfresh (Or.inr ⟨by simp, rfl, by simp⟩) (fun _ => hlc) (fun _ => hkey) hA
+            refine ⟨fs', ?_, hT, hR⟩
+            have hprep : prepMember fs m = some { kind := .link, name := joinSlash (init ++ [c]), link := normLink .link (joinSlash (init ++ [c])) m.link, children := none, data := some [] } := by
+              simp [prepMember, hk, hnn]
+            rw [addMembers, hprep]
+            simp only
+            rw [addFuel_eq, hadd]
+            simp [alDel]
+          | dir => simp [htgt] at hins
+          | sym x => simp [htgt] at hins
+          | hard x => simp [htgt] at hins
+          | special => simp [htgt] at hins
   | special =>
     simp only [hk] at hins
     cases hget : alGet t n with
@@ -270,7 +354,7 @@ theorem member_step (m : Member) (ms : List Member) (fs : FS) (t t2 : XTree)
         subst hins
         obtain ⟨fs', hadd, hT, hR⟩ := add_member_fresh 4094 (fs := fs) (t := t) (t1 := tA)
           (ino := { kind := .special, name := joinSlash (init ++ [c]), link := m.link, children := none, data := some [] })
-          [] true h hrep hg hu hfresh (Or.inr ⟨by simp, by simp, rfl, by simp⟩) (by simp) hA
+          [] true h hrep hg hu hfresh (Or.inr ⟨by simp, rfl, by simp⟩) (by simp) (by simp) hA
         refine ⟨fs', ?_, hT, hR⟩
         have hprep : prepMember fs m = some { kind := .special, name := joinSlash (init ++ [c]), link := m.link, children := none, data := some [] } := by
           simp [prepMember, hk, hnn]
@@ -375,17 +459,26 @@ theorem TreeOK.open {fs : FS} (h : TreeOK [] fs) {p : Bytes} (hp : validPath p =
         | .reg, none => .err .other
         | .special, _ => .err .exist
         | .sym, _ => openAux fs fs.inodes.length (fs.ino i).link
-        | .link, _ => openFS fs p := by
+        | .link, _ =>
+          match linkChain fs fs.inodes.length (getInode fs (fs.ino i).link) with
+          | .error e => .err e
+          | .ok t =>
+            match (fs.ino t).data with
+            | some d => .file (fs.info i) d
+            | none => .err .other := by
   unfold openFS
   rw [openAux, h.getInode_eq' hp hns]
   cases hg : fs.get? p with
   | none => rfl
   | some i =>
     simp only
-    rcases h.kinds p i hg with ⟨hk, _⟩ | ⟨_, hnl, _, _⟩
-    · simp [hk]
-    · cases hkk : (fs.ino i).kind <;> simp [hkk] at hnl ⊢
-      cases (fs.ino i).data <;> rfl
+    cases hkk : (fs.ino i).kind <;> simp [hkk]
+    · cases (fs.ino i).data <;> rfl
+    · cases linkChain fs fs.inodes.length (getInode fs (fs.ino i).link) with
+      | error e => rfl
+      | ok t =>
+        simp only
+        cases (fs.ino t).data <;> rfl
 
 /-- A path that is not a valid io/fs path is refused. -/
 theorem getInode_invalid (fs : FS) {p : Bytes} (hp : validPath p = false) : getInode fs p = .error .invalid := by
@@ -484,5 +577,21 @@ theorem globFS_sorted (fs : FS) (pat : Bytes) :
     (globFS fs pat).Pairwise (fun a b => bytesLe a b = true) := by
   unfold globFS
   exact List.pairwise_mergeSort (le := bytesLe) bytesLe_trans bytesLe_total _
+
+
+/-- A hard link to a regular file reads the bytes that file holds. -/
+theorem TreeOK.open_hardlink {fs : FS} (h : TreeOK [] fs) {p : Bytes} {i j : Nat} {d : Bytes}
+    (hp : validPath p = true) (hns : NoLinkOnPath fs p)
+    (hi : fs.get? p = some i) (hk : (fs.ino i).kind = .link)
+    (hns' : NoLinkOnPath fs (fs.ino i).link)
+    (hj : fs.get? (fs.ino i).link = some j) (hjk : (fs.ino j).kind = .reg) (hd : (fs.ino j).data = some d) :
+    openFS fs p = .file (fs.info i) d := by
+  rw [h.open hp hns]
+  simp only [hi, hk]
+  have htc : Contained (fs.ino i).link := (h.inv.ino i).2 (Or.inr hk)
+  rw [h.getInode_eq' htc hns', hj]
+  cases hl : fs.inodes.length with
+  | zero => simp [linkChain, hjk, hd]
+  | succ n => simp [linkChain, hjk, hd]
 
 end ClairModel.TarFS
